@@ -250,19 +250,8 @@ Theorem listings_v2_bounded_partial : forall k : list bool, (length k <= 10)%nat
 Proof. exact IndelMapFixedProofs.listings_v2_bounded. Qed.
 
 (** * FeatureMap algebra: set-theoretic meaning and "no coordinate outside the
-    parent" — every map of at most two spans (forward, reversed, zero-length,
-    lost) on a parent of length <= 4 (composition: <= 3, with every such
-    sub-map).  [den] = parent position read at each map position,
-    [positions] = the set covered (Spec/FeatureMapSpec.v). *)
-
-Definition stmt_featuremap_algebra : Prop := forall fm : fmap, in_parent fm = true ->
-  (exists c, fm_covered fm = Ok c /\ den c = map Some (positions fm) /\ separated (-1) (fspans c) = true /\
-             in_parent c = true) /\
-  (disjoint_spans fm = true ->
-     (exists c, fm_inverse fm = Ok c /\ den c = inverse_den (fplen fm) (den fm) /\ in_parent c = true) /\
-     (exists c, fm_shadow fm = Ok c /\ den c = map Some (complement (fplen fm) (positions fm)))) /\
-  (forall sub, in_parent sub = true -> fplen sub = flen fm -> fspans fm <> [] ->
-     exists c, fm_getitem_map fm sub = Ok c /\ den c = compose (den fm) (den sub) /\ in_parent c = true).
+    parent" ([in_parent] of every result).  [den] = parent position read at each map
+    position, [positions] = the set covered (Spec/FeatureMapSpec.v). *)
 
 (** composition [fm[sub]], slicing, reversal, gaps, scaling: ALL maps inside their parent
     (reversed, zero-length and lost spans included) *)
@@ -316,12 +305,12 @@ Theorem fm_shadow_spec : forall fm : fmap, 0 <= fplen fm -> in_parent fm = true 
             fplen g = fplen fm /\ in_parent g = true /\ all_forward g = true.
 Proof. exact FeatureMapCovInv.fm_shadow_spec. Qed.
 
-(** covered: by enumeration on small maps (<= 2 spans, parent <= 4) *)
+(** covered: the set of positions as sorted, separated forward spans — all maps *)
 
-Theorem covered_bounded_partial : forall fm : fmap, small_map fm -> 0 <= fplen fm <= 4 ->
-  exists c, fm_covered fm = Ok c /\ den c = map Some (positions fm) /\
-            separated (-1) (fspans c) = true /\ fplen c = fplen fm /\ in_parent c = true.
-Proof. exact FeatureMapBounded.covered_bounded. Qed.
+Theorem fm_covered_spec : forall fm : fmap, in_parent fm = true ->
+  exists c, fm_covered fm = Ok c /\ den c = map Some (positions fm) /\ separated (-1) (fspans c) = true /\
+            fplen c = fplen fm /\ in_parent c = true.
+Proof. exact FeatureMapCovInv.fm_covered_spec. Qed.
 
 (** * the hypotheses are satisfiable: concrete instances *)
 Theorem wf_example : WF (from_mask [false; true; true; false; true; false; false]).
